@@ -72,18 +72,31 @@ def make_pmap(spec):
                     except BaseException as e:  # noqa: BLE001
                         self.exc = e
 
+            def done(self):
+                return self.done_
+
+            def running(self):
+                return not self.done_
+
+            def cancelled(self):
+                return False
+
+            def cancel(self):
+                return False
+
+            def exception(self, timeout=None):
+                self.complete()
+                return self.exc
+
             def result(self, timeout=None):
                 self.complete()
                 if self.exc is not None:
                     raise self.exc
                 return self.value
 
-            def cancel(self):
-                return False
-
         class StubPool(cf.ProcessPoolExecutor):
             def __init__(self, max_workers=None, **kw):      # no real processes
-                self.mw = max_workers
+                self.mw = max_workers or 1
 
             def submit(self, fn, *a, **kw):
                 f = Fut(fn, a[0])
@@ -99,14 +112,28 @@ def make_pmap(spec):
             def __exit__(self, *a):
                 return False
 
+        def advance():
+            """one scheduling step: one of the RUNNING futures (the first `workers` submitted and not yet done, whether or not the caller is
+            waiting for them) completes; which one is the next solver-chosen value"""
+            running = [f for f in submitted if not f.done_][:workers]
+            if not running:
+                return None
+            k = order[step[0] % len(order)] % len(running) if order else 0
+            step[0] += 1
+            running[k].complete()
+            return running[k]
+
         def stub_as_completed(fs, timeout=None):
-            pending = list(fs)          # snapshot, like the real as_completed
-            while pending:
-                k = order[step[0] % len(order)] % len(pending) if order else 0
-                step[0] += 1
-                f = pending.pop(k)
-                f.complete()
-                yield f
+            snapshot = list(fs)          # like the real as_completed: futures added later are not seen by this iteration
+            yielded = []
+            while len(yielded) < len(snapshot):
+                ready = [f for f in snapshot if f.done_ and not any(f is y for y in yielded)]
+                if ready:
+                    yielded.append(ready[0])
+                    yield ready[0]
+                    continue
+                if advance() is None:
+                    return
 
         payloads = [P(i, bool((mask >> i) & 1)) for i in range(n)]
         stop = threading.Event()
@@ -186,7 +213,7 @@ def plan(tier, seed):
     for n in ((0, 1, 2, 3, 4) if tier == 'quick' else (0, 1, 2, 3, 4, 5)):
         steps = max(1, n)
         obs.append(Ob(name=f'pmap_n{n}', factory='vt.props.c18:make_pmap', spec={'n': n, 'steps': steps},
-                      params=[('workers', 1, 4), ('mask', 0, 2 ** n)] + [(f'o{i}', 0, max(1, n - i)) for i in range(steps)],
+                      params=[('workers', 1, 4 if n < 4 else 3), ('mask', 0, 2 ** n)] + [(f'o{i}', 0, 3) for i in range(steps)],
                       budget=900 if n < 5 else 3600, group='pmap', require_tags=('refilled',) if n >= 3 else ()))
     return {
         'obligations': obs,
